@@ -179,6 +179,7 @@ def witness(ex, w, p):
     wit = {'program': [[repr(k), a] for k, a in w.choices.items()], 'present': {}, 'answers': {}, 'ranks': {}, 'preds': {}}
     for name in w.input_names:
         wit['present'][name] = bool(tm.model_value(m, tm.var('present:' + name, 'B')))
+        wit.setdefault('defaults', {})[name] = bool(tm.model_value(m, tm.var('default:' + name, 'B'))) if w.defaults else False
         wit['answers'][name] = int(tm.model_value(m, tm.var('answer:' + name, 'I')))
     for name in sorted(w.rank_names):
         wit['ranks'][name] = int(tm.model_value(m, tm.var('rank:' + name, 'I')))
@@ -214,6 +215,7 @@ def task(arg):
         w.n_modes = bounds.get('n_modes', 3)
         w.n_answers = bounds.get('n_answers', 3)
         w.order = bounds.get('order', 'symbolic')
+        w.defaults = bounds.get('defaults', False)
         holder['w'] = w
         return check_path(algo, w, ex)
     try:
@@ -300,8 +302,9 @@ def run_property(pid, tier, technique_extra=''):
     # lookup modes {v[x], v.get(x)}; (B) natural order x blank/non-blank/refused answers
     A = dict(order='symbolic', n_modes=2, n_answers=2)
     B = dict(order='natural', n_modes=1, n_answers=3)
+    Cdef = dict(order='natural', n_modes=1, n_answers=2, defaults=True)      # [DEFAULT]-provided inputs
     if tier == 'quick':
-        configs = [dict(N=2, M=1, D=1, req_a=1, second_form=True, **A), dict(N=2, M=1, D=1, req_a=1, second_form=True, **B)]
+        configs = [dict(N=2, M=1, D=1, req_a=1, second_form=True, **A), dict(N=2, M=1, D=1, req_a=1, second_form=True, **B), dict(N=2, M=2, D=2, req_a=2, second_form=False, **Cdef)]
     else:
         configs = [dict(N=2, M=1, D=1, req_a=1, second_form=True, order='symbolic', n_modes=3, n_answers=3),
                    dict(N=3, M=1, D=1, req_a=2, second_form=True, **A), dict(N=3, M=1, D=1, req_a=2, second_form=True, **B),
@@ -345,7 +348,7 @@ def run_property(pid, tier, technique_extra=''):
         harness = {k: n for k, n in kinds.items() if k.startswith('harness:')}
         if harness:
             raise RuntimeError('harness exceptions: %s %s' % (harness, [s for r in results for s in r['samples'] if 'harness_exception' in s][:1]))
-        name = 'N=%d,M=%d,D=%d,second=%s,inst=%s,order=%s,modes=%s,answers=%s' % (cfgb['N'], cfgb['M'], cfgb['D'], cfgb.get('second_form'), cfgb.get('instanced', False), cfgb.get('order'), cfgb.get('n_modes'), cfgb.get('n_answers'))
+        name = 'N=%d,M=%d,D=%d,second=%s,inst=%s,order=%s,modes=%s,answers=%s' % (cfgb['N'], cfgb['M'], cfgb['D'], cfgb.get('second_form'), cfgb.get('instanced', False), cfgb.get('order'), cfgb.get('n_modes'), cfgb.get('n_answers')) + (',defaults' if cfgb.get('defaults') else '')
         # one obligation per explored path: "all assertions of <pid> hold on this end state"
         nviol = sum(d['count'] for r in results for d in r['viol'].get(pid, {}).values())
         c.obligations += tot_paths
